@@ -350,6 +350,19 @@ func genC17(r *Run) {
 		run(true, nil)
 		fills := r.N(4, 40)
 		for n := 0; n <= 64; n++ {
+			if n >= 6 {
+				// the same octets in a longer, right-aligned form (for 16 octets: the IPv4-mapped IPv6 form
+				// 0..0 ff ff a.b.c.d), which a conversion helper may silently unwrap
+				v := make([]byte, n)
+				copy(v[n-4:], r.Bytes(4))
+				v[n-6], v[n-5] = 0xff, 0xff
+				run(true, v)
+			}
+			if n >= 4 {
+				v := make([]byte, n) // left-aligned: a valid 4-octet value followed by zeros
+				copy(v, r.Bytes(4))
+				run(true, v)
+			}
 			for k := 0; k < fills; k++ {
 				var v []byte
 				switch k % 4 {
